@@ -323,6 +323,39 @@ impl<'tcx> Cx<'tcx> {
                 v.push(("bits", J::Int(size.bits() as i128)));
             }
         }
+        // `&<int>` constants (promoteds such as `&0`): the pointee value
+        if let ty::Ref(_, inner, _) = ty.kind() {
+            if inner.is_integral() || inner.is_bool() || inner.is_char() {
+                let r = std::panic::catch_unwind(std::panic::AssertUnwindSafe(|| {
+                    c.const_.eval(tcx, env, rustc_span::DUMMY_SP)
+                }));
+                if let Ok(Ok(mir::ConstValue::Scalar(rustc_middle::mir::interpret::Scalar::Ptr(ptr, _)))) = r {
+                    let (prov, off) = ptr.into_raw_parts();
+                    if let Some(rustc_middle::mir::interpret::GlobalAlloc::Memory(m)) =
+                        tcx.try_get_global_alloc(prov.alloc_id())
+                    {
+                        let a = m.inner();
+                        if let Ok(layout) = tcx.layout_of(env.as_query_input(*inner)) {
+                            let sz = layout.size.bytes_usize();
+                            let o = off.bytes_usize();
+                            if o + sz <= a.len() && sz <= 16 {
+                                let bytes = a.inspect_with_uninit_and_ptr_outside_interpreter(o..o + sz);
+                                let mut u: u128 = 0;
+                                for (i, b) in bytes.iter().enumerate() {
+                                    u |= (*b as u128) << (8 * i);
+                                }
+                                let iv: i128 = if inner.is_signed() {
+                                    rustc_abi::Size::from_bytes(sz as u64).sign_extend(u)
+                                } else {
+                                    u as i128
+                                };
+                                v.push(("deref_val", J::Int(iv)));
+                            }
+                        }
+                    }
+                }
+            }
+        }
         // statics referenced through pointers
         if let Some(did) = c.check_static_ptr(tcx) {
             v.push(("static", J::Str(self.key(did))));
